@@ -313,6 +313,10 @@ func Harness_C10_presreq_step() {
 	psd, in := me.perSubs[from]
 	if cmd == "+rem" || what == "gone" {
 		verifAssert(!in, "removed-contact-forgotten")
+		if what == "gone" {
+			// removal notices are delivered whether or not the user takes presence from the contact
+			verifAssert(fwd == "gone", "removal-notice-forwarded-regardless-of-muting")
+		}
 	} else {
 		verifAssert(in, "known-contact-stays")
 		en1 := (en0 || cmd == "+en") && cmd != "+dis"
